@@ -421,3 +421,30 @@ V('h-silent-argmax-strict', H, "if (max_val <= *from)", "if (max_val < *from)", 
 # ---------------------------------------------------------------- renamed private helpers must stay silent
 V2('u-silent-rename-helpers', [(U, 'scan_deep', '_leaves', 4), (U, 'scan(', '_structure(', 5)], ['C06', 'C03', 'C04', 'C14'], expect='silent')
 V('x-silent-rename-failed', PYX, 'failed()', 'placeholder()', ['C02', 'C09', 'C10', 'C11', 'C19'], expect='silent', count=3)
+
+
+# ---------------------------------------------------------------- round 4 (rules added for the fourth batch of seeded changes)
+EN = 'depccg/grammar/en.py'
+V('en-conj-demorgan', EN, "        not _is_punct(y)\n        and not _is_type_raised(y)\n        and x in (\",\", \";\", \"conj\")",
+  "        not (_is_punct(y) and _is_type_raised(y))\n        and x in (\",\", \";\", \"conj\")", ['C03'])
+V('en-conj-silent-reordered', EN, "        not _is_punct(y)\n        and not _is_type_raised(y)\n        and x in (\",\", \";\", \"conj\")",
+  "        x in (\",\", \";\", \"conj\")\n        and not (_is_punct(y) or _is_type_raised(y))", ['C03', 'C14'], expect='silent')
+V('en-rp-extra-conjunct', EN, "def remove_punctuation2(x: Category, y: Category) -> Optional[CombinatorResult]:\n    if _is_punct(y):",
+  "def remove_punctuation2(x: Category, y: Category) -> Optional[CombinatorResult]:\n    if _is_punct(y) and not _is_punct(x):", ['C03'])
+V('en-lqu-list-short', EN, 'if x in ("LQU", "LRB"):', 'if x in ("LQU",):', ['C03'])
+V('prolog-escape-order', 'depccg/printer/prolog.py', 'return text.replace("\'", "\\\\\'")', 'return text.replace("\'", "\\\\\'").replace("\\\\", "\\\\\\\\")', ['C07'])
+V('prolog-escape-silent-backslash-first', 'depccg/printer/prolog.py', 'return text.replace("\'", "\\\\\'")', 'return text.replace("\\\\", "\\\\\\\\").replace("\'", "\\\\\'")', ['C07'], expect='silent')
+V('prolog-ja-comma-skips-first', 'depccg/printer/prolog.py', 'if i < len(node.children):', 'if i > 0:', ['C07'])
+V('html-feature-group-narrow', 'depccg/printer/html.py', "r'([\\w\\\\/()]+)(\\[.+?\\])*'", "r'([\\w\\\\/()]+)(\\[\\w+\\])*'", ['C07'])
+V('reader-nfc-line', 'depccg/tools/reader.py', "    for line in open(filename):\n        line = line.strip()\n        if len(line) == 0:\n            continue\n        if line.startswith(\"ID\"):",
+  "    for line in open(filename):\n        line = line.strip().lower()\n        if len(line) == 0:\n            continue\n        if line.startswith(\"ID\"):", ['C08'])
+V('reader-ext-rsplit-silent', 'depccg/tools/reader.py', "    if filename.endswith('.jigg.xml'):", "    if filename.endswith(('.jigg.xml',)):", ['C15'], expect='silent')
+V('reader-ext-order-swapped', 'depccg/tools/reader.py', "    if filename.endswith('.jigg.xml'):\n        logger.info('read it as jigg XML file')\n        yield from read_jigg_xml(filename)\n\n    elif filename.endswith('.xml'):\n        logger.info('read it as C&C XML file')\n        yield from read_xml(filename)",
+  "    if filename.endswith('.xml'):\n        logger.info('read it as C&C XML file')\n        yield from read_xml(filename)\n\n    elif filename.endswith('.jigg.xml'):\n        logger.info('read it as jigg XML file')\n        yield from read_jigg_xml(filename)", ['C15'])
+V('ccg2lambda-no-copy', 'depccg/semantics/ccg2lambda/ccg2lambda_tools.py', "tokens = copy.deepcopy(ccg_xml.find('.//tokens'))", "tokens = ccg_xml.find('.//tokens')", ['C15'])
+V('h-keep-test-ge', H, 'if (std::exp(score_and_cat.first) > threshold)', 'if (std::exp(score_and_cat.first) >= threshold)', ['C16', 'C01', 'C10'])
+V('h-search-break-low', H, '        parsing::cell_item top_item = agenda.top();\n        agenda.pop();',
+  '        parsing::cell_item top_item = agenda.top();\n        agenda.pop();\n        if (top_item.score() < -1e+30f)\n            break;', ['C16', 'C01'])
+V('py-typecheck-copies', 'depccg/parsing.py', '    return doc, score_results\n\n\ndef apply_category_filters(',
+  '    return doc, [ScoringResult(numpy.ascontiguousarray(t), numpy.ascontiguousarray(d)) for t, d in score_results]\n\n\ndef apply_category_filters(', ['C17'])
+V('ja-reader-rfind', 'depccg/tools/ja/reader.py', "cat = cat[:cat.find('_')]", "cat = cat[:cat.rfind('_')]", ['C20'])
